@@ -214,6 +214,11 @@ def rule_ctl1(prog, labeller):
             tgt = table.get(tk)
             ok = tgt is not None and len(tgt) == 1 and \
                 tgt[0][0] in ('direct', 'inline')
+            if tk is None and k[1][0] in ('hole', 'raw', 'LNot'):
+                # the formula handed on is a (rewritten) operand: a smaller
+                # formula, restricted by R-CTL-2's closure -- the recursion
+                # is structural
+                ok = True
             if tgt is not None and any(x[0] == 'other' for x in tgt):
                 pass
             elif not ok:
